@@ -301,7 +301,10 @@ def case_cuts(arg):
             except Exception as ex:
                 o['exc'] = type(ex).__name__
             finally:
-                signal.setitimer(signal.ITIMER_REAL, 0)
+                try:
+                    signal.setitimer(signal.ITIMER_REAL, 0)
+                except Hang:
+                    signal.setitimer(signal.ITIMER_REAL, 0)
             obs.append(o)
             os.remove(path)
         return {'tid': tid, 'kind': 'cuts', 'cfg': cfg, 'names': names,
